@@ -1,7 +1,7 @@
 (** C12 — finite check of the degenerate-codon specification, include_stop = True
     (split over two files so that they build in parallel; every code x 15^3 codons of IUPAC symbols). *)
 From CG3 Require Import Lib.PyZ Lib.Val Model.GeneticCode Spec.GeneticCodeSpec Proofs.GeneticCodeProofs
-  Proofs.GeneticCodeCollProofs.
+  Proofs.GeneticCodeDegenDefs.
 From CG3gen Require Import GCTables.
 
 Lemma degenerate_checked_true : forallb (degenerate_check true) new_codes = true.
